@@ -66,11 +66,67 @@ def call_axis_family(rng, sh):
     return f"reshape {{a}} {lst(refactor(rng, cnt))}"
 
 
+def call_data_family(rng, sh, maxabs=0):
+    """element-moving / element-combining operations on integer arrays (C08, C10-C13, C16 families)"""
+    n = len(sh)
+    cnt = prod(sh)
+    axo = lambda: "n" if rng.random() < 0.3 else z(rand_axis(rng, n, 0.05))           # isize axis
+    axu = lambda: "n" if rng.random() < 0.3 else z(rng.randrange(n + 1) if rng.random() < 0.07 else rng.randrange(max(n, 1)))  # usize axis
+    k = rng.randrange(16)
+    if k == 0:
+        return f"flip {{a}} {'n' if rng.random() < 0.3 else lst([rand_axis(rng, n, 0.05) for _ in range(rng.randint(1, 2))])}"
+    if k == 1:
+        m = rng.randint(1, 2)
+        return (f"roll {{a}} {lst([rng.randint(-7, 7) for _ in range(m)])} "
+                f"{'n' if rng.random() < 0.3 else lst([rand_axis(rng, n, 0.05) for _ in range(m)])}")
+    if k == 2 and n >= 2:
+        a0, a1 = rng.sample(range(n), 2)
+        return f"rot90 {{a}} {z(rng.randint(0, 7))} {lst([a0, a1 - n if rng.random() < 0.3 else a1])}"
+    if k == 3:
+        return f"sort {{a}} {axo()} {z(rng.randrange(4))}"
+    if k == 4:
+        return "unique {a} n"
+    if k == 5 and cnt * max(maxabs, 1) < 2 ** 30:
+        return f"cumsum {{a}} {axo()}"
+    if k == 6 and cnt * max(maxabs, 1) < 2 ** 30:
+        return f"sum {{a}} {axo()}"
+    if k == 7:
+        return f"max {{a}} {axo()}"
+    if k == 8 and cnt <= 60:
+        if rng.random() < 0.4:
+            return f"repeat {{a}} {lst([rng.randint(0, 3)])} {axu()}"
+        ax = rng.randrange(max(n, 1))
+        return f"repeat {{a}} {lst([rng.randint(0, 2) for _ in range(sh[ax] if n else 1)])} {z(ax)}"
+    if k == 9:
+        ax = rng.randrange(max(n, 1))
+        m = sh[ax] if n else 1
+        return f"delete {{a}} {lst([rng.randrange(m + 1) for _ in range(rng.randint(0, 3))] if m else [])} {z(ax)}"
+    if k == 10 and cnt <= 200:
+        return f"concatenate L2 {{a}} {{a}} {axu()}"
+    if k == 11 and cnt <= 200 and n <= 3:
+        return f"stack L2 {{a}} {{a}} {axu()}"
+    if k == 12 and cnt <= 100:
+        pre = [rng.choice([1, 2, 3]) for _ in range(rng.randint(0, 4 - min(n, 4)))]
+        tgt = pre + [d if (d != 1 or rng.random() < 0.5) else rng.choice([2, 3]) for d in sh]
+        if rng.random() < 0.1:
+            tgt[-1] = tgt[-1] + 1
+        return f"broadcast_to {{a}} {lst(tgt)}"
+    if k == 13:
+        return f"{rng.choice(['tril', 'triu'])} {{a}} {'n' if rng.random() < 0.3 else z(rng.randint(-3, 3))}"
+    if k == 14 and cnt <= 20:
+        return f"{rng.choice(['diag', 'diagflat'])} {{a}} {z(rng.randint(-2, 2))}"
+    if k == 15:
+        return f"count_nonzero {{a}} {axo()} {z(rng.randrange(3))}"
+    return f"flip {{a}} n"
+
+
 FAMILIES = [call_axis_family]
 
 
-def rand_call(rng, sh):
-    return rng.choice(FAMILIES)(rng, sh)
+def rand_call(rng, sh, ty="str", maxabs=0):
+    if ty in ("i32", "i64") and rng.random() < 0.5:
+        return call_data_family(rng, sh, maxabs)
+    return call_axis_family(rng, sh)
 
 
 def parse_arr_result(res):
